@@ -63,6 +63,26 @@ def lattices(draw, families=None, orients=None, lmin=3.0, lmax=15.0, max_k=3):
     return {'family': fam, 'orient': orient, 'params': list(p), 'matrix': [[float(x) for x in row] for row in m]}
 
 
+FIXED_PARAMS = {'cubic': (5.0, 5.0, 5.0, 90.0, 90.0, 90.0), 'tetragonal': (4.0, 4.0, 7.5, 90.0, 90.0, 90.0), 'orthorhombic': (4.0, 6.5, 9.0, 90.0, 90.0, 90.0),
+                'hexagonal': (4.5, 4.5, 8.0, 90.0, 90.0, 120.0), 'rhombohedral': (6.0, 6.0, 6.0, 70.0, 70.0, 70.0), 'monoclinic': (5.0, 7.0, 6.0, 90.0, 112.0, 90.0),
+                'triclinic': (5.0, 6.5, 8.0, 75.0, 100.0, 62.0)}
+
+
+def fixed_lattice(fam, orient='lower'):
+    """A deterministic representative of a lattice family (for enumerations)."""
+    p = FIXED_PARAMS[fam]
+    lower = oracle.matrix_from_params_lower(*p)
+    if orient == 'lower':
+        m = lower
+    elif orient == 'pmg':
+        from pymatgen.core import Lattice
+
+        m = np.array(Lattice.from_parameters(*p).matrix)
+    else:
+        m = lower @ oracle.quat_to_rot((0.3, -0.5, 0.7, 0.4)).T
+    return {'family': fam, 'orient': orient, 'params': list(p), 'matrix': [[float(x) for x in row] for row in m]}
+
+
 SPECIES = ['Li', 'Na', 'S', 'P', 'O', 'Si']
 
 FACE_SPECIALS = [0.0, 1.0, -1e-17, 1e-17, 1 - 1e-16, 0.5, -0.0, 1.0 - 2**-53, 2**-60, -(2**-60), 0.25, 0.75, 1 / 3, 2 / 3]
